@@ -16,22 +16,32 @@ import vlib
 
 MANIFEST = {
     "level": "proof",
-    "text": "Rocq theorems over Model/Values.v (decode_weak = the weak mapstructure decoding the container uses, over the "
-            "strconv2 model of Model/Strconv.v) for all configuration values and field types: prefix binding is decode_weak of "
-            "the configured subtree and leaves a value that already has the field's type unchanged (c17_prefix_exact, nested "
-            "induction over ftype); the value-placeholder route and the prop shorthand give the same field as the prefix route "
-            "for every (value, type) in the boolean domain `safe` (c17_paths_agree, c17_paths_agree_key, c17_prop_is_value); a "
-            "plain literal reaches a string field as written (c17_literal). Outside `safe` the statement is false of the "
-            "format->splice->re-parse value path: nine refuted theorems, one per known-finding class KF-C17a..i. Tied to the "
-            "code on every run by vm_compute against real App.Run starts binding each generated value three ways",
+    "text": "Rocq theorems over Model/Values.v (decode_weak = the weak mapstructure decoding Property.Unmarshall uses, over the "
+            "strconv2 / encoding/json model of Model/Strconv.v and the ${} stage of Model/Placeholder.v) for all configuration "
+            "values and field types: prefix binding is decode_weak of the configured subtree - element-wise for lists, value-wise "
+            "for maps, field-wise by yaml tag / case-insensitive name for structs - and leaves a value that already has the field's "
+            "type unchanged to any depth (c17_prefix_exact, c17_prefix_string; nested induction over ftype); the value-placeholder "
+            "route and the prop shorthand bind the same field as the prefix route for EVERY (value, type) in the boolean domain "
+            "`safe` - plain strings, booleans, integers up to 2^53 into non-interface targets, floats that %v writes in plain "
+            "digits, lists and maps of JSON-plain strings / such numbers into slices, maps, structs, pointers (c17_paths_agree, "
+            "c17_paths_agree_key through the real tag text, c17_prop_is_value, c17_prop_agrees; proved by induction via a JSON "
+            "print/parse round trip and decimal digit arithmetic, not sampled); a plain literal reaches a string field as written "
+            "(c17_literal*). Outside `safe` the statement is false of the format->splice->re-parse value path: nine refuted "
+            "theorems, one per known-finding class KF-C17a..i; for class g a small repair exists (fixes/D-C17g.diff) and is a "
+            "parameter of the model (c17_float_repaired). Tied to the code on every run by vm_compute against real App.Run starts "
+            "binding each generated value three ways plus literal tags",
     "design_ref": "DESIGN.md 5 C17",
-    "note": "trusted: Coq kernel + vm_compute; hand-written models of strconv2 v0.0.2 ParseAny/FormatAny and of the weak-decoding "
-            "subset of mapstructure v1.5.0 (third-party, modelled as they behave), viper/yaml.v3 as the source of Configure.Get "
-            "(the model starts from the observed Get result); float64 = exact decimals of at most 15 significant digits, "
-            "integers up to 2^53; keys are lower-case identifiers; literals stay inside the tag grammar (no top-level comma, "
-            "no ${ / #{ unless meant); Go harness (reflect.StructOf types) and Python generators",
+    "note": "trusted: Coq kernel + vm_compute; hand-written models of strconv2 v0.0.2 ParseAny/FormatAny, encoding/json and the "
+            "weak-decoding subset of mapstructure v1.5.0 (third-party, modelled as they behave; dw_modelled / text_in_fragment state "
+            "where the model claims faithfulness, everything else is compared by the model-independent part of the oracle only); "
+            "viper/yaml.v3 are the source of Configure.Get and not modelled (the model starts from the observed Get result); "
+            "float64 = exact decimals of at most 15 significant digits, integers up to 2^53 (float32: 6 digits, normal range); "
+            "keys are lower-case identifiers; literals stay inside the tag grammar (no top-level comma - C19 -, no ${ / #{ - "
+            "C16/C18); expr-lang is not modelled; which variant of the value path the tree has (unchanged / D-C17g) is read off the "
+            "running code; Go harness (reflect.StructOf types, child processes with time limits) and Python generators",
     "technique": "Rocq proof (structural induction over nested inductives with hand-written induction principles, JSON "
-                 "print/parse round trip, decimal digit arithmetic) + vm_compute correspondence against the Go implementation",
+                 "print/parse round trip with fuel discharged by proof, decimal digit arithmetic over Decimal.uint) + vm_compute "
+                 "correspondence against the Go implementation + mutation self-test",
 }
 
 HEADER = ("From Coq Require Import List NArith ZArith Bool.\n"
